@@ -562,7 +562,8 @@ class Machine:
 		rng = self.rng
 		n = len(t)
 		nc = len(t.cols())
-		how = rng.choice(["cell", "cell", "row", "column", "region", "attr-list", "attr-vector", "attr-wrong-length", "rename_column", "rename_columns", "rename-fail", "cell-by-name"])
+		how = rng.choice(["cell", "cell", "row", "column", "region", "attr-list", "attr-vector", "attr-wrong-length", "rename_column", "rename_columns", "rename-fail", "cell-by-name",
+			"attr-unknown", "rename_column-missing", "cell-bad-column"])
 		pos = rng.randrange(nc)
 		col = t.cols()[pos]
 		proto = next((x for x in col._underlying if x is not None), 1)
@@ -625,6 +626,12 @@ class Machine:
 						other.owner = None    # the old column object is no longer part of the table
 			self.after_write(h, o, "table:" + how, set())
 			return self.family(h)
+		elif how == "attr-unknown":
+			f = lambda: setattr(t, "no_such_column_xyz", [1] * n)
+		elif how == "rename_column-missing":
+			f = lambda: t.rename_column("no-such-column", "x")
+		elif how == "cell-bad-column":
+			f = lambda: t.__setitem__((0, "no_such_column_xyz"), 1)
 		elif how == "rename_column":
 			nm = col.name
 			new = rng.choice(["renamed", "b", "New Name", "sum"])
@@ -1086,6 +1093,10 @@ def rect_violation(t):
 		rneg = tuple(t[i - n])
 		if not M.same_list(rneg, rows[i]):
 			return ("row-index-disagrees-with-columns", f"t[{i - n}] = {rneg!r} vs columns {rows[i]!r}")
+		row = t[i]
+		byidx = tuple(row[j] for j in range(len(cols)))
+		if len(row) != len(cols) or not M.same_list(byidx, rows[i]):
+			return ("row-element-access-disagrees-with-columns", f"t[{i}][j] gives {byidx!r} (len {len(row)}) vs columns {rows[i]!r}")
 	return None
 
 
